@@ -196,7 +196,7 @@ def analyse(ctx: Ctx, classes: dict, decorators: dict | None, where: str, rel: s
                   f"{where}:start{'==' if s1.fields == s2.fields else '!='} end{'==' if e1.fields == e2.fields else '!='}",
                   f"Range equality gives {r}, expected {want}", rel)
     rs = [R(P(0, 0), P(0, 1)), R(P(0, 0), P(0, 2))]
-    uris = ["a", "b"] if not unproved else ["a", "A", "b", "file:///c%3A/x", "file:///C%3A/x", " a", "a "]
+    uris = ["a", "b"] if not unproved else ["a", "A", "b", "file:///c%3A/x", "file:///C%3A/x", "file:///c:/x", "file:///c%3a/x", " a", "a ", "a/", "a%20", "a+"]
     for u1, r1, u2, r2 in itertools.product(uris, rs, uris, rs):
         r = call("Location", "__eq__", L(u1, r1), L(u2, r2))
         want = u1 == u2 and r1.fields["end"].fields == r2.fields["end"].fields
